@@ -10,6 +10,9 @@
 (*   val                the returned value (value record); zero: BOOLEAN   *)
 (*   skr, skp           clDSC only: the skeletons of the two masks as      *)
 (*                      voxel index sequences (recorded from skimage)      *)
+(*   big                TRUE for long-range ASSD calls (an axis of more    *)
+(*                      than 46340 voxels): squared distances are carried  *)
+(*                      as pairs, see Grid.SqBig                           *)
 (***************************************************************************)
 EXTENDS PipelineOps, Json, IOUtils, TLC
 
@@ -24,14 +27,19 @@ PS == IF R.sel THEN SelSet(R.pred, {R.pis[i] : i \in 1..Len(R.pis)}) ELSE Fg(R.p
 
 \* a bag as a sequence of <<squared distance, multiplicity>> (one JSON line per trace)
 BagSeq(f) == SeqOfSet({<<d, Cardinality({v \in DOMAIN f : f[v] = d})>> : d \in {f[v] : v \in DOMAIN f}})
+\* long-range: <<q, r, multiplicity>> for the squared distance q * 2^20 + r
+BagSeqBig(f) == SeqOfSet({<<d[1], d[2], Cardinality({v \in DOMAIN f : f[v].sq = d})>> : d \in {f[v].sq : v \in DOMAIN f}})
 
 Init == tid \in 1..Len(T) /\ l = 0
 \* for ASSD the step also prints the two bags of squared nearest-border distances; the harness
 \* finishes the real-number evaluation sum(sqrt) of exactly these bags (closed form, 1e-9)
 Next == /\ l = 0 /\ l' = 1 /\ UNCHANGED tid
         /\ (R.metric = "ASSD" /\ RS # {} /\ PS # {}) =>
-              PrintT(ToJson([bags |-> tid, a |-> BagSeq(SqDistMap(R.shape, PS, RS)),
-                                           b |-> BagSeq(SqDistMap(R.shape, RS, PS))]))
+              IF R.big
+              THEN PrintT(ToJson([bags |-> tid, a |-> BagSeqBig(SqDistMapBig(R.shape, PS, RS)),
+                                                b |-> BagSeqBig(SqDistMapBig(R.shape, RS, PS))]))
+              ELSE PrintT(ToJson([bags |-> tid, a |-> BagSeq(SqDistMap(R.shape, PS, RS)),
+                                                b |-> BagSeq(SqDistMap(R.shape, RS, PS))]))
 Spec == Init /\ [][Next]_vars
 
 Go == l = 1
@@ -53,7 +61,10 @@ T_ClDice == (Ok /\ M = "clDSC" /\ Len(R.skr) > 0 /\ Len(R.skp) > 0) =>
                      (R.val.k = "rat" /\ Norm(R.val.v) = ClDice(RS, PS, skr, skp))
 \* C07
 T_Assd == (Ok /\ M = "ASSD" /\ RS # {} /\ PS # {}) =>
-             R.val.k = "milli" /\ MilliIn(R.val.v[1], ASSDScore(R.shape, RS, PS))
+             /\ R.val.k = "milli"
+             /\ IF R.big
+                THEN LET iv == ASSDMilliBig(R.shape, RS, PS) IN iv[1] <= R.val.v[1] + 2 /\ R.val.v[1] - 1 <= iv[2]
+                ELSE MilliIn(R.val.v[1], ASSDScore(R.shape, RS, PS))
 T_AssdZeroIff == (Ok /\ M = "ASSD" /\ RS # {} /\ PS # {}) => (R.zero <=> ASSDIsZero(R.shape, RS, PS))
 T_AssdNonNeg  == (Ok /\ M = "ASSD" /\ RS # {} /\ PS # {}) => R.val.k = "milli" /\ R.val.v[1] >= 0
 =============================================================================
